@@ -64,6 +64,8 @@ class Cb:
     sig: str = "ed"       # ed | named | kwargs | bare
     named: tuple = ()     # subset of event source target state
     yields: int = 0
+    wrap: str = ""        # "" | "wraps" (functools.wraps decorator) | "sig" (… that also sets __signature__)
+    alias_of: int = 0     # >0: shares the function (same name, same provider) of that callback, in another group
 
 
 @dataclass
@@ -72,6 +74,7 @@ class Tr:
     tgt: int
     events: list
     internal: bool = False
+    any: bool = False     # declared as `<event> = target.from_.any(...)`: one copy per non-final state (src unused)
 
 
 @dataclass
@@ -98,10 +101,19 @@ class Scn:
     strict: bool = False
     state_field: str = "state"
     extra_events: dict = field(default_factory=dict)   # event id >= 100 -> arbitrary name (never declared)
+    model_shape: str = "plain"                    # plain | len0 | boolF  (falsy model objects)
+    listener_kind: str = "class"                  # class | eq (all listeners compare equal) | hooks (one generic
+                                                  # class, callbacks stored as instance attributes)
 
     # -- derived
     def is_async(self):
-        return any(c.coro for c in self.cbs if self._cb_live_at_ctor(c))
+        return any(c.coro for c in self.cbs if self._cb_live_at_ctor(c) and self._cb_bound(c))
+
+    def _cb_bound(self, c):
+        """an event-named convention callback exists for the library only if some transition carries the event"""
+        if c.style == "conv" and c.at[0] == "ev":
+            return any(c.at[1] in t.events for t in self.trans)
+        return True
 
     def _cb_live_at_ctor(self, c):
         return c.provider in ("machine", "model", "-") or c.provider in self.listeners_ctor
@@ -208,6 +220,18 @@ def flatten(scn: Scn, live=None):
     return tlists, slists
 
 
+def expanded_trans(scn: Scn):
+    """The transitions as the class holds them: explicit ones in declaration order, then one copy of
+    every `from_.any()` template per non-final state."""
+    out = [t for t in scn.trans if not t.any]
+    for t in scn.trans:
+        if t.any:
+            for si, st in enumerate(scn.states):
+                if not st.final:
+                    out.append(Tr(si, t.tgt, list(t.events), internal=t.internal))
+    return out
+
+
 def used_toks(scn: Scn):
     t = {0}
     for s in scn.states:
@@ -218,6 +242,9 @@ def used_toks(scn: Scn):
         t.add(scn.start)
     if scn.cur0 is not None:
         t.add(scn.cur0)
+    for o in scn.ops:
+        if o[0] == "write":
+            t.add(o[1])
     return sorted(t)
 
 
@@ -233,15 +260,25 @@ def _machine_lines(scn: Scn, live):
             f"state val={s.val} init={int(s.initial)} final={int(s.final)} "
             f"enter={lst(sl[i]['enter'])} exit={lst(sl[i]['exit'])}"
         )
-    for i, tr in enumerate(scn.trans):
+    def line(i, tr, src):
         g = tl[i]
         sp = lambda l: ",".join(f"{c}@{o}" if o is not None else str(c) for c, o in l) if l else "-"
         cd = ",".join(f"{c}:{e}" for c, e in g["cond"]) if g["cond"] else "-"
-        out.append(
-            f"trans src={tr.src} tgt={tr.tgt} int={int(tr.internal)} ev={lst(tr.events)} "
+        return (
+            f"trans src={src} tgt={tr.tgt} int={int(tr.internal)} ev={lst(tr.events)} "
             f"val={lst([c for c, _ in g['validators']])} cond={cd} before={sp(g['before'])} "
             f"on={sp(g['on'])} after={sp(g['after'])}"
         )
+    for i, tr in enumerate(scn.trans):
+        if not tr.any:
+            out.append(line(i, tr, tr.src))
+    # `from_.any()`: expanded when the event attribute is processed by the metaclass, i.e. after every
+    # explicit transition exists; one copy per non-final state, appended to that state's list
+    for i, tr in enumerate(scn.trans):
+        if tr.any:
+            for si, st in enumerate(scn.states):
+                if not st.final:
+                    out.append(line(i, tr, si))
     return out
 
 
@@ -293,8 +330,30 @@ class Runtime:
         self.depths = {}
         self.in_loop = False
         self.cbmap = {c.id: c for c in scn.cbs}
+        order = {g: i for i, g in enumerate(PHASES)}
+        self.aliases = {}
+        for c in scn.cbs:
+            if c.alias_of:
+                self.aliases.setdefault(c.alias_of, [self.cbmap[c.alias_of]]).append(c)
+        for k in self.aliases:
+            self.aliases[k].sort(key=lambda x: order[x.group])
+        self.alias_count = {}
         self.cross_hook = None    # worlds: called after a callback's nested sends (cross-machine nesting)
         self.owner_ids = None     # ids of the objects that may provide this instance's callbacks (C17)
+
+    def alias_pick(self, c, kw):
+        """A name attached to several groups of one transition is one function: its k-th invocation
+        inside one trigger is attributed to the k-th of those groups in phase order."""
+        al = self.aliases.get(c.id)
+        if not al:
+            return c
+        got = extract(c, (), kw)
+        tid = got.get("_tid")
+        if tid is None:
+            tid = self.initial_tid
+        k = self.alias_count.get((c.id, tid), 0)
+        self.alias_count[(c.id, tid)] = k + 1
+        return al[min(k, len(al) - 1)]
 
     def act(self, cb, tid):
         for (c, lo, hi, ret, rz, sends) in self.scn.acts:
@@ -409,9 +468,12 @@ def make_fn(rt: Runtime, c: Cb, with_self: bool):
         if me is not None and ids is not None and id(me) not in ids:
             rt.lines.append(f"X callback {c.id} ran on an object that does not belong to this instance")
 
+    c0 = c
+
     def _body(kw, me=None):
+        c = rt.alias_pick(c0, kw)
         _owner(me)
-        got = extract(c, (), kw)
+        got = extract(c0, (), kw)
         tid, ph = rt.begin(c, got)
         ret, rz, sends = rt.act(c.id, tid)
         for e in sends:
@@ -429,8 +491,9 @@ def make_fn(rt: Runtime, c: Cb, with_self: bool):
         return POOL[ret]
 
     async def _abody(kw, me=None):
+        c = rt.alias_pick(c0, kw)
         _owner(me)
-        got = extract(c, (), kw)
+        got = extract(c0, (), kw)
         tid, ph = rt.begin(c, got)
         ret, rz, sends = rt.act(c.id, tid)
         for _ in range(c.yields):
@@ -449,7 +512,32 @@ def make_fn(rt: Runtime, c: Cb, with_self: bool):
 
     ns = {"_body": _body, "_abody": _abody}
     exec(src, ns)
-    return ns[c.name]
+    fn = ns[c.name]
+    if c.wrap:
+        fn = (_deco_async if c.coro else _deco_sync)(fn)
+        if c.wrap == "sig":
+            import inspect
+            fn.__signature__ = inspect.signature(fn.__wrapped__)
+    return fn
+
+
+def _deco_sync(f):
+    """one signature-preserving decorator for every wrapped callback: all wrappers share one code object"""
+    import functools
+
+    @functools.wraps(f)
+    def wrapper(*a, **k):
+        return f(*a, **k)
+    return wrapper
+
+
+def _deco_async(f):
+    import functools
+
+    @functools.wraps(f)
+    async def wrapper(*a, **k):
+        return await f(*a, **k)
+    return wrapper
 
 
 def nested_send(rt: Runtime, e):
@@ -489,7 +577,11 @@ def build(scn: Scn, rt: Runtime, cls_name=None, picklable=False):
         kw = {k: v for k, v in kw.items() if v is not None}
         if tr.internal:
             kw["internal"] = True
-        tl = states[tr.src].to(states[tr.tgt], event=[EVENTS[e] for e in tr.events], **kw)
+        if tr.any:
+            tl = states[tr.tgt].from_.any(**kw)
+            ns[EVENTS[tr.events[0]]] = tl
+        else:
+            tl = states[tr.src].to(states[tr.tgt], event=[EVENTS[e] for e in tr.events], **kw)
         tls.append(tl)
     # decorators
     for c in scn.cbs:
@@ -503,10 +595,11 @@ def build(scn: Scn, rt: Runtime, cls_name=None, picklable=False):
         ns[c.name] = deco(fn)
     # machine-provided methods (conv + name)
     model_ns, listener_ns = {}, {}
+    hooks = scn.listener_kind == "hooks"
     for c in scn.cbs:
-        if c.style not in ("conv", "name"):
+        if c.style not in ("conv", "name") or c.alias_of:
             continue
-        fn = make_fn(rt, c, with_self=True)
+        fn = make_fn(rt, c, with_self=not (hooks and c.provider.startswith("L")))
         if c.provider == "machine":
             ns[c.name] = fn
         elif c.provider == "model":
@@ -531,14 +624,32 @@ def build(scn: Scn, rt: Runtime, cls_name=None, picklable=False):
         rt.lines.append(f"T {rp(v)}")
 
     model_ns[scn.state_field] = property(_get, _set)
+    if scn.model_shape == "len0":          # a falsy, perfectly valid model object
+        model_ns["__len__"] = lambda self: 0
+    elif scn.model_shape == "boolF":
+        model_ns["__bool__"] = lambda self: False
     suffix = "_" + cls.__name__ if picklable else ""
     model_cls = type("Mdl" + suffix, (), model_ns)
     listeners = {}
     lclasses = []
+    factories = {}
+    lbase = ()
+    if scn.listener_kind == "eq":          # distinct listener objects that compare (and hash) equal
+        lbase = (type("EqBase" + suffix, (), {"__eq__": lambda a, b: hasattr(b, "_verif_eq"), "__hash__": lambda a: 7,
+                                               "_verif_eq": True}),)
+        lclasses.append(lbase[0])
+    hooks_cls = type("Hooks" + suffix, (), {"__init__": lambda self, **k: self.__dict__.update(k)})
+    if hooks:
+        lclasses.append(hooks_cls)
     for p in sorted({c.provider for c in scn.cbs if c.provider.startswith("L")} | set(scn.listeners_ctor)):
-        lc = type("Lst_" + p + suffix, (), listener_ns.get(p, {}))
-        lclasses.append(lc)
-        listeners[p] = lc()
+        if hooks:
+            factories[p] = (lambda d: (lambda: hooks_cls(**d)))(dict(listener_ns.get(p, {})))
+        else:
+            lc = type("Lst_" + p + suffix, lbase, listener_ns.get(p, {}))
+            lclasses.append(lc)
+            factories[p] = lc
+        listeners[p] = factories[p]()
+    cls._verif_listener_factories = factories
     if picklable:    # pickle stores classes by module and name
         g = sys.modules[cls.__module__].__dict__
         for k in [cls, model_cls] + lclasses:
@@ -643,6 +754,9 @@ class Session:
             return "R", self.op_construct()
         if op[0] == "send":
             return "R", self.op_send(op[1], op[2] if len(op) > 2 else "send")
+        if op[0] == "write":        # somebody else assigns the model field
+            setattr(rt.model, self.scn.state_field, POOL[op[1]])
+            return "R", None
         if op[0] == "noop":
             # stands for "a clone was taken here" in a reference run without cloning: a machine that is
             # not activated yet gets a fresh activation trigger (numbered like the model numbers it)
